@@ -278,3 +278,31 @@ def check_doc_set(ctx, rule):
             if log != allowed:
                 problems.append("steps %s, spec %s" % (log, allowed))
         ctx.check(not problems, rule, b.path, key, "doc_set -> %s after %s" % (got, log), b.sp, bad_detail="; ".join(problems))
+
+
+def check_refused_drop_keeps_subscribers(ctx, rule):
+    """"removing a document is refused while it is open" - and a refused request changes nothing: the API handler `doc_drop`
+    evaluated with the store's drop succeeding and failing. The event streams of the document's subscribers may be ended
+    (Engine::leave with kill_subscribers = true) only once the drop went through; a refused drop leaves every subscriber
+    subscribed (they keep receiving "exactly one event per entry")"""
+    f = ctx.facts
+    b = f.body(API + "doc_drop")
+    ctx.touch(*f.family(b.path))
+    for fail in (None, "drop_replica"):
+        got, log = eval_handler(f, "doc_drop", "DropRequest", fail)
+        calls = [c for c, _ in log]
+        problems = []
+        if got.startswith("UNSUPPORTED"):
+            problems.append(got)
+        kills = [i for i, c in enumerate(calls) if c.startswith("leave(") and c.rstrip(")").split(",")[-1] not in ("0", "false")]
+        drops = [i for i, c in enumerate(calls) if c.startswith("drop_replica(")]
+        if fail is None:
+            if not got.startswith("Ok("):
+                problems.append("answers %s" % got)
+        else:
+            if not got.startswith("Err("):
+                problems.append("the store refused the drop but the handler answers %s" % got)
+            if kills:
+                problems.append("the drop was refused, yet the subscribers' streams were ended: %s" % calls)
+        ctx.check(not problems, rule, b.path, "api-drop[%s]" % ("all-ok" if fail is None else "drop-refused"),
+                  "doc_drop -> %s after %s; spec: subscribers are only dropped together with the document" % (got, calls), b.sp, bad_detail="; ".join(problems))
